@@ -1,8 +1,10 @@
 pub mod c07;
 pub mod c09;
 pub mod c10;
+pub mod c11;
 pub mod c12;
 pub mod c13;
+pub mod c18;
 
 use crate::simkit::Property;
 
@@ -11,9 +13,11 @@ pub fn by_id(id: &str) -> Option<Box<dyn Property>> {
         "C07" => Some(Box::new(c07::C07)),
         "C09" => Some(Box::new(c09::C09)),
         "C10" => Some(Box::new(c10::C10)),
+        "C11" => Some(Box::new(c11::C11)),
         "C12" => Some(Box::new(c12::C12)),
         "C13" => Some(Box::new(c13::C13)),
+        "C18" => Some(Box::new(c18::C18)),
         _ => None,
     }
 }
-pub const ALL: &[&str] = &["C07", "C09", "C10", "C12", "C13"];
+pub const ALL: &[&str] = &["C07", "C09", "C10", "C11", "C12", "C13", "C18"];
